@@ -230,14 +230,14 @@ func c20EntriesStr(es []c20Entry) string {
 // ---------------------------------------------------------------------------------------------
 // fixtures of one scenario
 type c20World struct {
-	t                       *testing.T
-	a                       *chain.App
-	app1, app2              uint64
+	t                        *testing.T
+	a                        *chain.App
+	app1, app2               uint64
 	cmdx, cmst, harbor, atom uint64
-	pairCmdx, pairAtom      uint64
-	epA, epB                uint64
-	liqPair, liqPool        uint64
-	users                   []sdk.AccAddress
+	pairCmdx, pairAtom       uint64
+	epA, epB                 uint64
+	liqPair, liqPool         uint64
+	users                    []sdk.AccAddress
 }
 
 var c20Denoms = []string{"ucmdx", "ucmst", "uharbor", "uatom"}
@@ -290,7 +290,7 @@ func c20BalDelta(before, after map[string]sdk.Int) uint64 {
 }
 
 type c20Scenario struct {
-	nVaults, closeVault int // closeVault: 0 none, k: close the k-th created vault (1-based)
+	nVaults, closeVault   int // closeVault: 0 none, k: close the k-th created vault (1-based)
 	nLockers, closeLocker int
 	drawFee               int64 // draw-down fee in percent (0 => no net fee from vaults)
 	nOrders               int
@@ -298,8 +298,8 @@ type c20Scenario struct {
 	withEsm               bool
 	withLiqSweep          bool // run the liquidation begin-blockers (sweep offsets)
 	withRewards           bool
-	withGenesisToken      bool // the collector's secondary asset is a genesis token of the app (then the
-	// validating collector.SetCollectorLookupTable succeeds at import)
+	withGenesisToken      bool // the collector's secondary asset is a genesis token of the app (the validating
+	// collector.SetCollectorLookupTable, through which InitGenesis imported before C20-F12 was repaired, wants that)
 	amt int64
 }
 
@@ -439,11 +439,11 @@ func c20Populate(w *c20World, ctx sdk.Context, sc c20Scenario, tr *tracer) {
 // ---------------------------------------------------------------------------------------------
 // continuation workload: the same operations on the original and on the re-imported chain
 type c20Step struct {
-	name           string
-	depMod         string // the (module, prefix) whose round trip this step observes ("-" 0: none)
-	depByte        int
-	run            func(ctx sdk.Context) (class string)
-	id             func(ctx sdk.Context) uint64
+	name    string
+	depMod  string // the (module, prefix) whose round trip this step observes ("-" 0: none)
+	depByte int
+	run     func(ctx sdk.Context) (class string)
+	id      func(ctx sdk.Context) uint64
 }
 
 func c20Keeper(f func(ctx sdk.Context) error) func(ctx sdk.Context) string {
@@ -530,11 +530,9 @@ func c20Continuation(w *c20World, sc c20Scenario) []c20Step {
 		)
 	}
 	if sc.nLockers > 0 {
+		// (MsgCreateLocker needs the collector lookup table: before the repair of C20-F12 it was dropped
+		// at import when the secondary asset was no genesis token of the app, and these steps failed)
 		lm, lb := "locker", 23
-		if !sc.withGenesisToken {
-			// the collector lookup table is dropped at import (class 12) and MsgCreateLocker needs it
-			lm, lb = "collector", 1
-		}
 		steps = append(steps,
 			c20Step{"locker.create", lm, lb, msg(lockertypes.NewMsgCreateLockerRequest(u[6].String(), amt, w.cmst, w.app1)), lockerID},
 			c20Step{"locker.create2", lm, lb, msg(lockertypes.NewMsgCreateLockerRequest(u[7].String(), amt, w.cmst, w.app1)), lockerID},
@@ -553,7 +551,10 @@ func c20Continuation(w *c20World, sc c20Scenario) []c20Step {
 		}
 	}
 	if sc.withLiquidity {
-		orderID := func(ctx sdk.Context) uint64 { p, _ := a.LiquidityKeeper.GetPair(ctx, w.app1, w.liqPair); return p.LastOrderId }
+		orderID := func(ctx sdk.Context) uint64 {
+			p, _ := a.LiquidityKeeper.GetPair(ctx, w.app1, w.liqPair)
+			return p.LastOrderId
+		}
 		steps = append(steps,
 			c20Step{"liquidity.order", "liquidity", 162, msg(liquiditytypes.NewMsgLimitOrder(w.app1, u[2], w.liqPair, liquiditytypes.OrderDirectionSell,
 				sdk.NewCoin("ucmdx", sdk.NewInt(1000000)), "ucmst", sdk.NewDecWithPrec(230, 2), sdk.NewInt(1000000), time.Hour)), orderID},
@@ -645,6 +646,19 @@ func TestC20(t *testing.T) {
 			}
 			if sc.drawFee == 0 {
 				sc.drawFee = 1
+			}
+		}
+		if ci == 1 { // regression of C20-F1 / C20-F12: net fees collected, lockers, and a collector lookup table
+			// whose secondary asset is NOT a genesis token of the app (the validating import setter rejected it)
+			sc.withGenesisToken = false
+			if sc.nLockers == 0 {
+				sc.nLockers = 2
+			}
+			if sc.closeLocker == 1 {
+				sc.closeLocker = 0
+			}
+			if sc.drawFee == 0 {
+				sc.drawFee = 2
 			}
 		}
 		if only >= 0 && ci != only {
